@@ -543,6 +543,8 @@ class Inliner:
                 name_counts[n.id] = name_counts.get(n.id, 0) + 1
             elif isinstance(n, ast.arg):
                 name_counts[n.arg] = name_counts.get(n.arg, 0) + 2
+        ctx_params = {a.arg for a in getattr(getattr(ctx.node, "args", None), "args", [])} | {a.arg for a in getattr(getattr(ctx.node, "args", None), "kwonlyargs", [])}
+
         def free_for_helper(nm: str) -> bool:
             return nm not in name_counts or (nm in s_targets and nm not in getattr(self, "_reserved", set()))
 
@@ -553,6 +555,11 @@ class Inliner:
             elif isinstance(v, ast.Name) and (v.id in s_targets or (isinstance(s, ast.Return) and getattr(holder, fld) is call)) and sum(1 for q in params if isinstance(bind[q], ast.Name) and bind[q].id == v.id) == 1 and v.id not in {"self", "cls"}:
                 # in `return helper(a, ..)` the caller's `a` is dead after the call as well
                 # `X, .. = helper(X, ..)`: the helper may work on the caller's own variable
+                if p_ != v.id:
+                    rename[p_] = v.id
+            elif isinstance(v, ast.Name) and v.id not in {"self", "cls"} and v.id in ctx_params and name_counts.get(v.id, 0) == 2 + sum(1 for n in ast.walk(s) if isinstance(n, ast.Name) and n.id == v.id) and sum(1 for q in params if isinstance(bind[q], ast.Name) and bind[q].id == v.id) == 1:
+                # a parameter of the caller that occurs nowhere but in this call: the helper, which
+                # rebinds its own parameter, may work on the caller's variable (it is dead afterwards)
                 if p_ != v.id:
                     rename[p_] = v.id
             else:
@@ -1630,8 +1637,7 @@ def adopt_inherited_helpers(modules: List[Tuple[str, ast.Module]], known: Set[st
                 seen_bases.add(bn)
                 bmod, bcls = classes[bn][0]
                 work += [b.id if isinstance(b, ast.Name) else (b.attr if isinstance(b, ast.Attribute) else None) for b in bcls.bases]
-                if bmod == mname:
-                    continue
+                same = bmod == mname
                 for m in bcls.body:
                     if not isinstance(m, ast.FunctionDef) or not m.name.startswith("_") or m.name.startswith("__") or m.name in own:
                         continue
@@ -1640,7 +1646,7 @@ def adopt_inherited_helpers(modules: List[Tuple[str, ast.Module]], known: Set[st
                     params = {a.arg for a in m.args.posonlyargs + m.args.args + m.args.kwonlyargs}
                     local = {x.id for x in ast.walk(m) if isinstance(x, ast.Name) and isinstance(x.ctx, ast.Store)}
                     free = {x.id for x in ast.walk(m) if isinstance(x, ast.Name) and isinstance(x.ctx, ast.Load)} - params - local
-                    if any(not hasattr(_b, f) for f in free):
+                    if not same and any(not hasattr(_b, f) for f in free):
                         continue
                     cls.body.append(clone_ast(m))
                     own.add(m.name)
